@@ -314,6 +314,57 @@ func registerStubs(m map[string]Intrinsic) {
 		st.store(p.sub(0), e.ConcStr(""))
 		return val(nil)
 	}
+	// ---- strings.Builder: the byte string lives in field 1 (buf); the self-pointer check (copy detection) is skipped
+	sbGet := func(e *Exec, st *State, v Value) (*Ptr, *Str) {
+		p := v.(*Ptr)
+		if p.IsNil() {
+			unsupportedf("nil *strings.Builder")
+		}
+		b, _ := st.load(p.sub(1)).(*Str)
+		if b == nil || b.Nil {
+			b = e.ConcStr("")
+		}
+		return p, b
+	}
+	m["(*strings.Builder).WriteString"] = func(e *Exec, st *State, ci *CallInfo) Outcome {
+		p, b := sbGet(e, st, ci.Args[0])
+		s := sArg(ci, 1)
+		st.store(p.sub(1), e.Concat(b, s))
+		return val(tuple(e.lenOf(s), nilIface))
+	}
+	m["(*strings.Builder).Write"] = m["(*strings.Builder).WriteString"]
+	m["(*strings.Builder).WriteByte"] = func(e *Exec, st *State, ci *CallInfo) Outcome {
+		p, b := sbGet(e, st, ci.Args[0])
+		cv, ok := ci.Args[1].(*sym.Term).ConstVal()
+		if !ok {
+			unsupportedf("WriteByte of symbolic byte")
+		}
+		st.store(p.sub(1), e.Concat(b, e.ConcStr(string([]byte{byte(cv)}))))
+		return val(nilIface)
+	}
+	m["(*strings.Builder).WriteRune"] = func(e *Exec, st *State, ci *CallInfo) Outcome {
+		p, b := sbGet(e, st, ci.Args[0])
+		cv, ok := ci.Args[1].(*sym.Term).ConstVal()
+		if !ok || cv >= 0x80 {
+			unsupportedf("WriteRune of symbolic or non-ASCII rune")
+		}
+		st.store(p.sub(1), e.Concat(b, e.ConcStr(string([]byte{byte(cv)}))))
+		return val(tuple(e.i64(1), nilIface))
+	}
+	m["(*strings.Builder).String"] = func(e *Exec, st *State, ci *CallInfo) Outcome {
+		_, b := sbGet(e, st, ci.Args[0])
+		return val(b)
+	}
+	m["(*strings.Builder).Len"] = func(e *Exec, st *State, ci *CallInfo) Outcome {
+		_, b := sbGet(e, st, ci.Args[0])
+		return val(e.lenOf(b))
+	}
+	m["(*strings.Builder).Grow"] = func(e *Exec, st *State, ci *CallInfo) Outcome { return val(nil) }
+	m["(*strings.Builder).Reset"] = func(e *Exec, st *State, ci *CallInfo) Outcome {
+		p, _ := sbGet(e, st, ci.Args[0])
+		st.store(p.sub(1), e.ConcStr(""))
+		return val(nil)
+	}
 	m["bytes.NewReader"] = func(e *Exec, st *State, ci *CallInfo) Outcome {
 		return val(e.newModel(st, "bytes.Reader", map[string]Value{"data": ci.Args[0]}))
 	}
